@@ -1,6 +1,7 @@
 """R5/R7: rule tables read from the evaluated initialisers of policy.c, exhaustive enumeration of
 evaluation paths under the engine semantics decided by C05, certificate formulas."""
-from .model import AnalysisBroken, strip
+import os
+from .model import REPO, AnalysisBroken, strip
 
 PFX = "KSI_VerificationRule_"
 OK, NA = "OK", "NA"
@@ -17,7 +18,7 @@ class Tables:
             for g in lst:
                 if g["t"].startswith("const KSI_Rule[") or g["t"].startswith("KSI_Rule["):
                     self.tables[name] = self._read(g)
-                    self.where[name] = "%s:%d" % (g["file"].replace("/repo/", ""), g["line"])
+                    self.where[name] = "%s:%d" % (os.path.relpath(g["file"], REPO), g["line"])
         if len(self.tables) < 20:
             raise AnalysisBroken("only %d KSI_Rule tables found" % len(self.tables))
 
